@@ -44,6 +44,10 @@ GEN_X86 = {
     "misdetected": "\tmovq\t0x10(%rsi,%rax,8), %rdx\n\taddq\t%rdx, %rcx\n\tmovq\t%rcx, 0x18(%rdi,%rax,8)\n\taddq\t$1, %rax\n\tcmpq\t%rax, %r8\n\tjne\t.L1\n",
     # unparsable by both parsers: without --arch both attempts fail
     "garbage": "\t@@@ ??? !!!\n\t)(*&^ %$#\n",
+    # a zoo of less common syntax: high-byte registers meeting their low byte, segment override,
+    # rip-relative addressing, hex immediate, lock prefix, cmov
+    "zoo": "\tmovb\t(%rdi,%rcx), %al\n\taddb\t%al, %ah\n\tmovzbl\t%ah, %edx\n\tmovq\t%fs:0x28, %rbx\n\tleaq\t.LC0(%rip), %rsi\n"
+           "\tmovl\t$0xff, %r9d\n\tlock addq\t$1, (%rdi)\n\tshlq\t$2, %rcx\n\tcmovne\t%rdx, %rbx\n\tincq\t%rcx\n\tcmpq\t$64, %rcx\n\tjne\t.L1\n",
 }
 GEN_ARM = {
     "prepost": "\tldr\td0, [x1], #8\n\tldr\td1, [x2, #8]!\n\tstr\td0, [x3], #8\n\tldp\tq4, q5, [x9], #64\n\tstp\tq4, q5, [x10, #-32]!\n\tfadd\td2, d0, d1\n\tsubs\tx4, x4, #1\n\tb.ne\t.L1\n",
@@ -54,6 +58,10 @@ GEN_ARM = {
     "depbreak": "\teor\tx0, x0, x0\n\tmovi\tv0.2d, #0\n\tfadd\td1, d0, d1\n\tadd\tx1, x1, #1\n\tb.ne\t.L1\n",
     # a comment full of x86 register names: detect_ISA takes it for x86, the retry path parses it as AArch64
     "misdetected": "\tldr\td0, [x1], #8\n\tfadd\td2, d0, d1\n\t// %xmm0 %xmm1 %xmm2 %xmm3 %xmm4 %xmm5\n\tsubs\tx4, x4, #1\n\tb.ne\t.L1\n",
+    # a zoo of less common syntax: register lists and ranges, shifted and extended registers, condition
+    # codes, lane indices, hex immediates
+    "zoo": "\tld1\t{v0.2d, v1.2d}, [x0], #32\n\tst1\t{v2.4s-v3.4s}, [x1]\n\tadd\tx2, x3, x4, lsl #3\n\tadd\tx5, x6, w7, sxtw #2\n"
+           "\tcsel\tx8, x9, x10, ne\n\tfmla\tv4.2d, v5.2d, v6.d[1]\n\tldr\tq7, [x11, x12, lsl #4]\n\tmov\tx13, #0x10\n\tsubs\tx14, x14, #1\n\tb.ne\t.L1\n",
 }
 
 
@@ -84,7 +92,7 @@ def build_corpus(tier, root):
     for fn, isa, label in files:
         archs = xa if isa == "x86" else aa
         base = os.path.basename(fn)
-        if tier == "quick" and label == "shipped" and "test_files" not in base:
+        if tier == "quick" and label == "shipped" and "test_files" not in base:  # (generated kernels keep all archs)
             archs = [archs[hash_idx(base, len(archs))], archs[hash_idx(base + "x", len(archs))]]
         for a in sorted(set(archs)):
             opt_sets = [[], ["--fixed"], ["-f"], ["--ignore-unknown"], ["--fixed", "-f"], ["-v"], ["--lcd-timeout", "-1"]]
@@ -299,9 +307,13 @@ def run_job(job):
                                           % (configs[cid]["argv"], first_diff(refs[str(cid)]["report"], reps[0])))
             agg.notes["fresh_inprocess_copy_equals_fresh_subprocess"] += 1
         return agg.to_dict()
-    for i in range(job["first"], job["first"] + job["n"]):
+    todo = [(i, None) for i in range(job["first"], job["first"] + job["n"])]
+    if job.get("id_lists"):
+        todo = [(job["first"] + k, l) for k, l in enumerate(job["id_lists"])]
+        agg.notes["directed_ABAB_histories"] += len(todo)
+    for i, fixed_ids in todo:
         rs = derive_seed(job["seed"], PROP, i)
-        ids = job.get("ids") or gen_history(random.Random(rs), configs, job["tier"])
+        ids = fixed_ids or job.get("ids") or gen_history(random.Random(rs), configs, job["tier"])
         ch = Chooser(seed=rs)
         reports, sim = run_history(root, [configs[c]["argv"] for c in ids], ch)
         V = judge_history(ids, reports, configs, refs)
@@ -371,6 +383,24 @@ def build_jobs(tier, seed):
     nh = 640 if tier == "quick" else 8000
     per = 10 if tier == "quick" else 40
     jobs = [{"first": f, "n": min(per, nh - f), "seed": seed, "tier": tier} for f in range(0, nh, per)]
+    # directed histories A B A B: the same kernel alternately on two models of its ISA (state that a
+    # memoised factory or a per-ISA singleton keeps from "the model seen last" shows on the third element)
+    plain = {}
+    for c in configs:
+        if c["arch"] is not None and c["argv"][2:-1] == [] and not c["label"].startswith(("wrong", "shipped:lines")):
+            plain.setdefault(c["kernel"], {})[c["arch"]] = c["id"]
+    abab = []
+    prng = random.Random(derive_seed(seed, PROP, "abab"))
+    for kernel in sorted(plain):
+        archs = sorted(plain[kernel])
+        pairs = [(a, b) for a in archs for b in archs if a != b]
+        if not kernel.startswith("gen_"):
+            prng.shuffle(pairs)
+            pairs = pairs[: (1 if tier == "quick" else 4)]
+        for a, b in pairs:
+            abab.append([plain[kernel][a], plain[kernel][b], plain[kernel][a], plain[kernel][b]])
+    for i in range(0, len(abab), 8):
+        jobs.append({"first": i, "n": 1, "seed": seed, "tier": tier, "id_lists": abab[i:i + 8]})
     rng = random.Random(derive_seed(seed, PROP, "iso"))
     ids = [c["id"] for c in configs]
     rng.shuffle(ids)
